@@ -13,7 +13,7 @@ RTOL = 1e-7  # relative residual of an eigen / singular equation
 OTOL = 1e-6  # entries of the Gram matrix
 FTOL = 1e-8  # entries of matrix functions (relative to the largest entry)
 FTOL_SQRT = 1e-6  # square roots: sqrt turns an eigenvalue 1e-16 (exact 0) into 1e-8
-QCAP = 999997
+QCAP = 1000  # defects are reported up to 1000 x tolerance (keeps records reproducible where ARPACK restarts are not)
 
 
 def quant(err, tol):
